@@ -18,10 +18,11 @@ theorem Cell.mem_bools (b : Bool) : b ∈ Cell.bools := by cases b <;> simp [Cel
 
 /-- `Cell.all` really lists every settings cell -/
 theorem Cell.mem_all (c : Cell) : c ∈ Cell.all := by
-  rcases c with ⟨a, b, c, d, e, f, g, h, i⟩
+  rcases c with ⟨a, b, c, d, e, f, g, h, i, j, k⟩
   simp only [Cell.all, List.mem_flatMap, List.mem_singleton]
   exact ⟨a, Cell.mem_bools a, b, Cell.mem_bools b, c, Cell.mem_bools c, d, Cell.mem_bools d, e, Cell.mem_bools e,
-    f, Cell.mem_bools f, g, Cell.mem_bools g, h, Cell.mem_bools h, i, Cell.mem_bools i, rfl⟩
+    f, Cell.mem_bools f, g, Cell.mem_bools g, h, Cell.mem_bools h, i, Cell.mem_bools i, j, Cell.mem_bools j,
+    k, Cell.mem_bools k, rfl⟩
 
 /-! ### What the proofs need from an invalidation table (every field is a decidable, finite fact) -/
 
@@ -55,7 +56,7 @@ structure TableOK (T : Table) : Prop where
   fantasy_all : T.fantasyNulled.all (T.fantasyRestored.contains ·) = true
   /-- what `exact_prediction` of every strategy class reads / creates / pops, under every settings cell, is what
       the specification `accessModel` says (in particular: an entry with two representations is re-validated) -/
-  access_ok : ∀ cls ∈ strategyClasses, ∀ c ∈ Cell.all, T.access cls false false c = accessModel cls false false c
+  access_ok : ∀ cls ∈ strategyClasses, ∀ c ∈ Cell.all, T.access cls false c = accessModel cls false c
   /-- … and likewise what `get_fantasy_strategy` reads from the source strategy -/
   fantasy_access_ok : ∀ cls ∈ strategyClasses, T.fantasyAccess cls .default = fantasyAccessModel cls .default
 
@@ -73,7 +74,7 @@ instance (T : Table) : Decidable (TableOK T) :=
      T.legacyConversionClears = true ∧
      T.strategyKeyedOnLazy = true ∧ T.fantasyNeedsStrategy = true ∧ T.fantasyRestoreInFinally = true ∧
      T.fantasyNulled.all (T.fantasyRestored.contains ·) = true ∧
-     (∀ cls ∈ strategyClasses, ∀ c ∈ Cell.all, T.access cls false false c = accessModel cls false false c) ∧
+     (∀ cls ∈ strategyClasses, ∀ c ∈ Cell.all, T.access cls false c = accessModel cls false c) ∧
      (∀ cls ∈ strategyClasses, T.fantasyAccess cls .default = fantasyAccessModel cls .default))
     ⟨fun ⟨a, b, c, d, e, f, g, h, m, i, j, k, l, n, o⟩ => ⟨a, b, c, d, e, f, g, h, m, i, j, k, l, n, o⟩,
      fun ⟨a, b, c, d, e, f, g, h, m, i, j, k, l, n, o⟩ => ⟨a, b, c, d, e, f, g, h, m, i, j, k, l, n, o⟩⟩
@@ -251,7 +252,7 @@ theorem clearBy_of_not_cleared {effs : List Effect} {st : Store} {sl : Nat}
 /-- the specification re-validates every two-representation entry, so which slots a call reads does not depend on
 what is live -/
 theorem effReads_accessModel (cls : Nat) (c : Cell) (st : Store) :
-    effReads (accessModel cls false false c) st = effReads (accessModel cls false false c) (fun _ => none) := by
+    effReads (accessModel cls false c) st = effReads (accessModel cls false c) (fun _ => none) := by
   unfold accessModel
   split
   · rfl
@@ -260,25 +261,25 @@ theorem effReads_accessModel (cls : Nat) (c : Cell) (st : Store) :
     · split
       · cases h : ((c.fpv || c.fps) && !c.skip) <;> simp [effReads]
       · split
-        · cases h : (c.fpv && !c.skip && !false) <;> simp [effReads]
+        · cases h : (c.fpv && !c.skip && !c.nan) <;> simp [effReads]
         · rfl
 
 theorem accessModel_facts :
     ∀ k ∈ Kind.all, ∀ d ∈ Cell.bools, ∀ c ∈ Cell.all, k.isExact = true →
-      (∀ sl ∈ effReads (accessModel (stratClassOf k d) false false c) (fun _ => none),
+      (∀ sl ∈ effReads (accessModel (stratClassOf k d) false c) (fun _ => none),
           sl ∈ slotsOf k ∧ (sl == sStrat) = false) ∧
-      ((popped (accessModel (stratClassOf k d) false false c)).map Effect.delAttr).any (·.cleared sStrat) = false := by
+      ((popped (accessModel (stratClassOf k d) false c)).map Effect.delAttr).any (·.cleared sStrat) = false := by
   decide +kernel
 
 /-- slots read by a strategy class that a model of kind `k` can have: slots of the kind, never slot 0 -/
 theorem accessModel_reads (k : Kind) (hk : k.isExact = true) (d : Bool) (c : Cell) (st : Store) :
-    ∀ sl ∈ effReads (accessModel (stratClassOf k d) false false c) st, sl ∈ slotsOf k ∧ (sl == sStrat) = false := by
+    ∀ sl ∈ effReads (accessModel (stratClassOf k d) false c) st, sl ∈ slotsOf k ∧ (sl == sStrat) = false := by
   rw [effReads_accessModel]
   exact (accessModel_facts k (Kind.mem_all k) d (Cell.mem_bools d) c (Cell.mem_all c) hk).1
 
 /-- the pops of a call never remove the strategy object -/
 theorem popped_effects_keep_strategy (k : Kind) (hk : k.isExact = true) (d : Bool) (c : Cell) :
-    ((popped (accessModel (stratClassOf k d) false false c)).map Effect.delAttr).any (·.cleared sStrat) = false :=
+    ((popped (accessModel (stratClassOf k d) false c)).map Effect.delAttr).any (·.cleared sStrat) = false :=
   (accessModel_facts k (Kind.mem_all k) d (Cell.mem_bools d) c (Cell.mem_all c) hk).2
 
 /-- the fantasy model's kind and the memo entries its strategy is born with -/
@@ -437,7 +438,7 @@ theorem callPosterior_unfold (c : Cell) :
     callPosterior T s c =
       (let s0 := withStrategy T s c
        let cls := stratClassOf s0.kind s0.stratDefault
-       let st0 := clearBy ((popped (accessModel cls false false c)).map .delAttr) s0.store
+       let st0 := clearBy ((popped (accessModel cls false c)).map .delAttr) s0.store
        let reads := memoReads T cls c
        let attrs := attrsActive T s0.kind false
        let st := touchAll (touchAll st0 (fun sl => newEntry s (c.keepGraph && T.hookedSlot cls (baseSlot sl))) reads)
@@ -495,7 +496,7 @@ theorem callPosterior_answer (hk : s.kind.isExact = true) (htr : s.training = fa
   -- the store after the pops: still fresh, still holding the strategy object
   have hkeep := popped_effects_keep_strategy s.kind hk (s.kind == .exact || c.eager) c
   have hfresh0 : FreshS s.pv s.dv
-      (clearBy ((popped (accessModel (stratClassOf s.kind (s.kind == .exact || c.eager)) false false c)).map .delAttr)
+      (clearBy ((popped (accessModel (stratClassOf s.kind (s.kind == .exact || c.eager)) false c)).map .delAttr)
         (withStrategy T s c).store) := by
     have := hI0.fresh (by rw [ft]; exact htr)
     rw [fp, fv] at this
@@ -503,7 +504,7 @@ theorem callPosterior_answer (hk : s.kind.isExact = true) (htr : s.training = fa
   -- every slot read is live in the final store, and the final store is fresh
   have hfresh : FreshS s.pv s.dv
       (touchAll (touchAll
-        (clearBy ((popped (accessModel (stratClassOf s.kind (s.kind == .exact || c.eager)) false false c)).map .delAttr)
+        (clearBy ((popped (accessModel (stratClassOf s.kind (s.kind == .exact || c.eager)) false c)).map .delAttr)
           (withStrategy T s c).store)
         (fun sl => newEntry s (c.keepGraph && T.hookedSlot (stratClassOf s.kind (s.kind == .exact || c.eager)) (baseSlot sl)))
         (memoReads T (stratClassOf s.kind (s.kind == .exact || c.eager)) c))
@@ -513,7 +514,7 @@ theorem callPosterior_answer (hk : s.kind.isExact = true) (htr : s.training = fa
       intro sl; exact ⟨rfl, rfl⟩
     · intro sl; exact ⟨rfl, rfl⟩
   have hlive : ∃ e, touchAll (touchAll
-        (clearBy ((popped (accessModel (stratClassOf s.kind (s.kind == .exact || c.eager)) false false c)).map .delAttr)
+        (clearBy ((popped (accessModel (stratClassOf s.kind (s.kind == .exact || c.eager)) false c)).map .delAttr)
           (withStrategy T s c).store)
         (fun sl => newEntry s (c.keepGraph && T.hookedSlot (stratClassOf s.kind (s.kind == .exact || c.eager)) (baseSlot sl)))
         (memoReads T (stratClassOf s.kind (s.kind == .exact || c.eager)) c))
@@ -528,7 +529,7 @@ theorem callPosterior_answer (hk : s.kind.isExact = true) (htr : s.training = fa
         rw [clearBy_of_not_cleared hkeep]
         exact hq
     · obtain ⟨e, he⟩ := touchAll_live
-        (clearBy ((popped (accessModel (stratClassOf s.kind (s.kind == .exact || c.eager)) false false c)).map .delAttr)
+        (clearBy ((popped (accessModel (stratClassOf s.kind (s.kind == .exact || c.eager)) false c)).map .delAttr)
           (withStrategy T s c).store)
         (fun sl => newEntry s (c.keepGraph && T.hookedSlot (stratClassOf s.kind (s.kind == .exact || c.eager)) (baseSlot sl))) _ sl h
       exact ⟨e, touchAll_of_some _ _ _ _ _ he⟩
